@@ -67,6 +67,17 @@ func p384Scalar(kind int, label string) []byte {
 		new(big.Int).Sub(n, big.NewInt(1)).FillBytes(out)
 	case 4: // leading zero byte
 		copy(out[1:], mc.Fill(seedBase, "lz-"+label, 47))
+	// 6..10: type-3 request blinds only (byte strings that are hashed, not scalars)
+	case 6: // zero
+		return out
+	case 7: // the group order itself
+		return n.FillBytes(out)
+	case 8: // empty
+		return []byte{}
+	case 9: // 2^384-1
+		return bytes.Repeat([]byte{0xff}, 48)
+	case 10: // 64 bytes
+		return mc.Fill(seedBase, "blind64-"+label, 64)
 	default:
 		v := new(big.Int).SetBytes(mc.Fill(seedBase, "sc-"+label, 56))
 		v.Mod(v, new(big.Int).Sub(n, big.NewInt(1)))
@@ -609,6 +620,9 @@ func main() {
 			for bl := 1; bl <= 5; bl++ {
 				cases = append(cases, P{T: 3, Key: k, CL: 32, NK: sec % 3, Seed: 1, NameLen: 14, Blind: bl, Secret: sec})
 			}
+		}
+		for bl := 6; bl <= 10; bl++ { // request blinds that are not scalars of the group
+			cases = append(cases, P{T: 3, Key: k, CL: 32, NK: 2, Seed: 1, NameLen: 14, Blind: bl, Secret: 5})
 		}
 		for i := range specialNames {
 			cases = append(cases, P{T: 3, Key: k, CL: 32, NK: 2, Seed: 2, NameLen: -(i + 1), Blind: 5, Secret: 5})
